@@ -104,6 +104,11 @@ def _shape_terms(case):
 
 def expected(repo, ci, spec, case, contracts=None, loops=None):
     """Evaluate the CommandSpec on the concrete case. Returns Expected."""
+    if not spec.admissible(case):
+        e = Expected()
+        e.admissible = False
+        e.note = "outside the property's admissible inputs (spec.admissible)"
+        return e
     eng = Engine(repo, contracts or {}, loops or {})
     eng.current = repo.find_method(ci, "execute")
     st, x = build_inputs(eng, ci)
